@@ -1,0 +1,109 @@
+package catalog
+
+import (
+	"encoding/json"
+	"errors"
+
+	"github.com/jsightapi/jsight-api-core/directive"
+)
+
+// CheckSerialization makes sure that the catalog can be serialized. Some schema
+// errors (an example which contradicts its rule in a Path body, an "or" rule on
+// an object, a property overridden through allOf, ...) are found only when the
+// schema is marshaled, so they have to be found before the build is declared
+// successful. The components are marshaled in the order of Catalog.MarshalJSON.
+// It returns the directive of the component which cannot be serialized (nil if
+// it isn't known) and the error.
+func (c *Catalog) CheckSerialization() (*directive.Directive, error) {
+	var d *directive.Directive
+
+	try := func(v any, dd *directive.Directive) error {
+		if _, err := json.Marshal(v); err != nil {
+			d = dd
+			return unwrapMarshalerError(err)
+		}
+		return nil
+	}
+
+	err := c.UserTypes.Each(func(_ string, ut *UserType) error {
+		return try(ut, &ut.Directive)
+	})
+	if err != nil {
+		return d, err
+	}
+
+	err = c.Interactions.Each(func(_ InteractionID, v Interaction) error {
+		switch i := v.(type) {
+		case *HTTPInteraction:
+			return checkHTTPInteractionSerialization(i, try)
+		case *JsonRpcInteraction:
+			if i.Params != nil {
+				if err := try(i.Params, &i.Params.Directive); err != nil {
+					return err
+				}
+			}
+			if i.Result != nil {
+				if err := try(i.Result, &i.Result.Directive); err != nil {
+					return err
+				}
+			}
+		}
+		return nil
+	})
+	if err != nil {
+		return d, err
+	}
+
+	// Everything else.
+	if _, err := c.ToJson(); err != nil {
+		return nil, unwrapMarshalerError(err)
+	}
+	return nil, nil
+}
+
+func checkHTTPInteractionSerialization(i *HTTPInteraction, try func(any, *directive.Directive) error) error {
+	if i.PathVariables != nil {
+		if err := try(i.PathVariables, nil); err != nil {
+			return err
+		}
+	}
+	if i.Query != nil {
+		if err := try(i.Query, &i.Query.Directive); err != nil {
+			return err
+		}
+	}
+	if r := i.Request; r != nil {
+		if r.HTTPRequestHeaders != nil {
+			if err := try(r.HTTPRequestHeaders, &r.HTTPRequestHeaders.Directive); err != nil {
+				return err
+			}
+		}
+		if r.HTTPRequestBody != nil {
+			if err := try(r.HTTPRequestBody, &r.Directive); err != nil {
+				return err
+			}
+		}
+	}
+	for k := range i.Responses {
+		r := &i.Responses[k]
+		if r.Headers != nil {
+			if err := try(r.Headers, &r.Headers.Directive); err != nil {
+				return err
+			}
+		}
+		if r.Body != nil {
+			if err := try(r.Body, &r.Directive); err != nil {
+				return err
+			}
+		}
+	}
+	return nil
+}
+
+func unwrapMarshalerError(err error) error {
+	var me *json.MarshalerError
+	for errors.As(err, &me) && me.Unwrap() != nil {
+		err = me.Unwrap()
+	}
+	return err
+}
